@@ -27,7 +27,8 @@ comments at the definitions in `Model/HybFree.lean`):
  3. source names in the namespace `h_tmp…` (any configuration): a pending postfix step of an enclosing `v++` loop
     is popped by a statement that names it, or removed by a constant `?:` whose dead arm names it;
  4. the text of the arity error (`"macro arity"` / `"arity"`);
- 5. expression statements and `return` exist in the hybrid model only;
+ 5. `return` and expression statements with a side effect exist in the hybrid model only (a bare PURE value
+    statement `siV;` is in both: no effect, its immediates registered);
  6. immediates of an assignment target are registered by the pure model only (such targets are rejected by both);
  7. a `for` loop whose counter is declared with another type than ut32 (`int i; for (i = 0; …)`): the hybrid model
     initialises and steps the counter in its declared type (`loopVarTy`, `forInitH`), the pure model hardcodes the
@@ -174,15 +175,26 @@ example : ({ imms := [], live := [], hyb := 3, pending := [] } : HSt).pending = 
 
 /-- **Statement level.** From a state whose immediates are all live and whose pending entries are postfix steps of
     enclosing loops (numbered below `st.hyb`, not statement-expressions), a hybrid-free statement satisfying `HSameS`
-    is lowered by `compileStmtH` to the effect of `compileStmt`, it is never a bare value, it carries no bare
+    is lowered by `compileStmtH` to the effect of `compileStmt` (`effOpt`: to NO effect when it is a bare pure value
+    statement `e;`, whose pure-model effect `EMPTY` is not listed by `compileStmts` either), it carries no bare
     temporaries, and the final state is the pure model's (`fromT`: same `imms` and `hyb`, all immediates live,
     `pending` as before). -/
 theorem compileStmtH_eq_compileStmt (env : CEnv) (s : CStmt) (st : HSt)
     (hfree : HybFreeS s = true) (hsame : HSameS env s = true) (hlive : st.live = st.imms.map (·.1))
     (hpend : ∀ p ∈ st.pending, p.gcc = false ∧ ∃ i, i < st.hyb ∧ p.tmp = s!"h_tmp{i}") :
     compileStmtH env st s =
-      (compileStmt env ⟨st.imms, st.hyb⟩ s).map (fun r => (some r.1, [], fromT st r.2)) :=
+      (compileStmt env ⟨st.imms, st.hyb⟩ s).map (fun r => (effOpt s r.1, [], fromT st r.2)) :=
   compileStmtH_eq env s st hfree hsame hlive hpend
+
+/-- a statement other than a bare value is never lowered to "no effect" (the previous form of the statement) -/
+theorem compileStmtH_eq_compileStmt_effect (env : CEnv) (s : CStmt) (st : HSt) (hbare : isBare s = false)
+    (hfree : HybFreeS s = true) (hsame : HSameS env s = true) (hlive : st.live = st.imms.map (·.1))
+    (hpend : ∀ p ∈ st.pending, p.gcc = false ∧ ∃ i, i < st.hyb ∧ p.tmp = s!"h_tmp{i}") :
+    compileStmtH env st s =
+      (compileStmt env ⟨st.imms, st.hyb⟩ s).map (fun r => (some r.1, [], fromT st r.2)) := by
+  rw [compileStmtH_eq env s st hfree hsame hlive hpend]
+  simp only [effOpt, hbare, Bool.false_eq_true, ↓reduceIte]
+  rfl
 
 theorem compileStmtsH_eq_compileStmts (env : CEnv) (ss : List CStmt) (st : HSt)
     (hfree : HybFreeSs ss = true) (hsame : HSameSs env ss = true) (hlive : st.live = st.imms.map (·.1))
